@@ -51,7 +51,15 @@ pub fn generate(rng: &mut Rng) -> Workload {
     let k = rng.range(4, 24);
     let descr;
     let mut has_tasks = false;
-    match rng.below(9) {
+    match rng.below(11) {
+        9 | 10 => {
+            has_tasks = true;
+            let big = rng.range(100, 400);
+            descr = format!("a short-lived task per iteration, each capturing an array of {big} strings");
+            src.push_str(&format!(
+                "let big = fresh(0, {big})\nvar i = 0\nwhile i < n {{\n    task {{\n        let seen = big.len()\n    }}\n    i = i + 1\n}}\nobs(0, \"\" .. (i == n))\n"
+            ));
+        }
         6 => {
             let pushes = rng.range(1, 9);
             descr = format!("a scratch array of {pushes} integer literals per iteration");
